@@ -26,7 +26,8 @@ RULE = ('case = generated pair of configurations (every suite, PSK / RSA per dir
         'harness error. Non-trivial = the history contains a failure path (authentication failure, error reply, kernel refusal, '
         'hostile datagram, internal error) or a rekey; distinct by (fault kind, suite, auth methods, op kinds). One case in '
         'eight is a start-up failure: a configuration that the loader refuses (ill-typed PSK of several shapes, other invalid '
-        'fields next to valid credentials); the text pyikev2.py logs at ERROR for it must not contain the PSKs.')
+        'fields next to valid credentials); the text pyikev2.py logs at ERROR for it must not contain the PSKs. '
+        'Directed cases complete every exchange kind from either end at the default level and let strangers in (IKE_SA_INIT from / ACQUIRE towards an unconfigured address).')
 ASSUMPTIONS = [
     'three of four cases run with the root logger at INFO (the daemon\'s default), one of four at DEBUG as positive control',
     'secrets of at least 8 octets are searched; shorter strings would match by chance',
@@ -101,7 +102,19 @@ def run_case(case):
         s = SM.Sim(cfg, monitors=[])
         apply_auth_fault(s, cfg, case.get('auth_fault'))
         for op in case['ops']:
-            if op[0] == 'hostile':
+            if op[0] == 'stranger':
+                # an IKE_SA_INIT request from an address no connection is configured for (anybody can send that), or an ACQUIRE
+                # towards such an address (a policy the administrator added by hand)
+                v6 = ':' in cfg['addr_a']
+                if op[2] == 'init':
+                    hdr = bytes.fromhex('a1a2a3a4a5a6a7a8') + bytes(8) + bytes([0, 0x20, 34, 0x08]) + bytes(4) + (28).to_bytes(4, 'big')
+                    s.apply(['inject', op[1], 'unknown', hdr.hex()])
+                else:
+                    ep = s.eps[op[1]]
+                    far = 'fd00::98' if v6 else '10.99.99.98'
+                    data = s.w.acquire_bytes(ep, far, ep.addrs[0], 9, str(ep.addrs[0]), far, 1025, 80, 6)
+                    s.apply(['xfrm_raw', op[1], bytes(data).hex()])
+            elif op[0] == 'hostile':
                 msgs = corpus.clear_bytes() + corpus.as_clear(None)
                 data = c06._mutate(bytes(msgs[op[2] % len(msgs)][1]), op[3])
                 s.apply(['inject', op[1], 'peer', data.hex()])
@@ -294,13 +307,49 @@ def cases(draw):
         c10.rewrite_ops(),
         st.builds(lambda s_, n, e: ['kfault', s_, n, e], st.sampled_from(['a', 'b']), st.integers(1, 4), st.sampled_from([22, 17, 105])),
         st.builds(lambda i, p, b: ['corrupt', i, p, b], st.integers(0, 2), st.integers(0, 300), st.integers(0, 7)),
+        st.builds(lambda s_, k: ['stranger', s_, k], st.sampled_from(['a', 'b']), st.sampled_from(['init', 'acquire'])),
         st.builds(lambda s_, k, m: ['hostile', s_, k, m], st.sampled_from(['a', 'b']), st.integers(0, 20),
                   st.lists(st.tuples(st.sampled_from(['flip', 'set']), st.integers(0, 400), st.integers(0, 255)).map(list), max_size=2)))
     ops = [['acquire', first, 0, 1]] + draw(st.lists(st.one_of(trig, deliver, deliver, deliver, others, others), min_size=4, max_size=30))
     return {'cfg': cfg, 'auth_fault': af, 'ops': ops, 'debug': draw(st.integers(0, 3)) == 0}
 
 
+def directed_cases():
+    """every kind of exchange completed once, at the default level, plus the paths an outsider can reach without credentials"""
+    out = []
+    full = [['deliver', 0]] * 6
+    for i, p in enumerate(({'dh': '19'}, {'dh': '14', 'pfs': '19', 'proto': 'ah', 'mode': 'tunnel'}, {'dh': '20', 'v6': True, 'rsa': True, 'n': 2})):
+        cfg = c09.mk_cfg(p)
+        cfg['psk_a'] = 'Ka+dIrEcTeD0123456789+/AbCd%d' % i
+        cfg['psk_b'] = 'Kb/dIrEcTeD9876543210+/ZyXw%d' % i
+        for first in 'ab':
+            for name, ops in (('rekey_ike', [['rekey_ike', 'a', 0]] + full + [['rekey_ike', 'b', 0]] + full + [['acquire', 'b', 0, 3]] + full),
+                              ('rekey_child', [['expire', 'a', 0, False]] + full + [['expire', 'b', 0, False]] + full),
+                              ('delete', [['expire', 'b', 0, True]] + full + [['del_ike', 'a', 0]] + full),
+                              ('strangers', [['stranger', 'a', 'init'], ['stranger', 'b', 'init'], ['stranger', 'a', 'acquire'],
+                                             ['stranger', 'b', 'acquire']]),
+                              ('dpd', [['dpd', 'a', 0]] + full + [['dpd', 'b', 0]] + full)):
+                out.append({'cfg': cfg, 'auth_fault': 'none', 'debug': False, 'directed': name,
+                            'ops': [['acquire', first, 0, 1]] + full + ops})
+    return out
+
+
+def directed_worker(chunk):
+    st_ = Stats()
+    for case in chunk:
+        fails = body(case, st_)
+        st_.klass('directed:' + case['directed'])
+        for f in fails:
+            if common.KNOWN.is_open('C20', f.sig):
+                st_.excluded[f.sig] += 1
+            elif not any(g.sig == f.sig for g in st_.failures):
+                st_.failures.append(f)
+    return st_
+
+
 def worker(task):
+    if task[0] == 'directed':
+        return directed_worker(task[1])
     n, seed = task
     ctx = common.Ctx('C20', 'quick', seed)
     st_ = Stats()
@@ -310,8 +359,11 @@ def worker(task):
 
 def run(ctx):
     n = 40 if ctx.quick else 2500
-    for st_ in pmap(worker, [(n, ctx.seed * 64 + i) for i in range(common.NCPU)]):
+    dc = directed_cases()
+    for st_ in pmap(worker, [('directed', dc[i::common.NCPU]) for i in range(common.NCPU)] +
+                    [(n, ctx.seed * 64 + i) for i in range(common.NCPU)]):
         ctx.stats.merge(st_)
+    ctx.extra['directed'] = f'{len(dc)} directed cases at the default level: every exchange kind completed by either end, strangers'
     if not ctx.quick:
         import sys as _sys
         common.hyp_fuzz_stage(ctx, _sys.modules[__name__], 'cases()')
